@@ -106,11 +106,11 @@ Print Assumptions C13_prune_spec.
     reflexive, symmetric and transitive (numbers compared exactly) *)
 Theorem C13_equals_equiv :
   forall a b c, json a = true -> json b = true -> json c = true ->
-    (exists r, equals_core a b = Ok r /\ (r = true <-> a = b)) /\
-    equals_core a a = Ok true /\
-    equals_core a b = equals_core b a /\
-    (equals_core a b = Ok true -> equals_core b c = Ok true -> equals_core a c = Ok true).
-Proof. exact equals_equiv. Qed.
+    (exists r, equals_spec a b = Ok r /\ (r = true <-> a = b)) /\
+    equals_spec a a = Ok true /\
+    equals_spec a b = equals_spec b a /\
+    (equals_spec a b = Ok true -> equals_spec b c = Ok true -> equals_spec a c = Ok true).
+Proof. exact equals_spec_equiv. Qed.
 Print Assumptions C13_equals_equiv.
 
 Theorem C13_equals_shortcut_refuted :
